@@ -46,7 +46,7 @@ impl Slot {
     /// Generates a named slot like `$xyz`
     pub fn named(s: &str) -> Slot {
         // A numeral that does not fit the numeric encoding is an ordinary (interned) name.
-        if let Some(out) = s.parse::<u32>().ok().and_then(|x| x.checked_mul(4)) {
+        if let Some(out) = parse_canonical(s).and_then(|x| x.checked_mul(4)) {
             return Slot(out); // numeric
         }
 
@@ -54,9 +54,7 @@ impl Slot {
             if s.starts_with("f") {
                 // `f<n>` is a fresh slot only if both its encoding and the bumped counter fit into u32;
                 // otherwise it is an ordinary (interned) name.
-                let fresh = s[1..]
-                    .parse::<u32>()
-                    .ok()
+                let fresh = parse_canonical(&s[1..])
                     .and_then(|x| x.checked_mul(4))
                     .and_then(|x| x.checked_add(1))
                     .and_then(|out| out.checked_add(4).map(|next| (out, next)));
@@ -78,6 +76,17 @@ impl Slot {
             tab.named_map.insert(s.to_string(), i);
             Slot(i) // new named
         })
+    }
+}
+
+// The number a numeral denotes, provided `s` is its canonical decimal spelling - the one `Display` prints.
+// `str::parse` also accepts "007" and "+7"; as slot names those are ordinary (interned) names, not aliases of "7".
+fn parse_canonical(s: &str) -> Option<u32> {
+    let x = s.parse::<u32>().ok()?;
+    if x.to_string() == s {
+        Some(x)
+    } else {
+        None
     }
 }
 
